@@ -42,7 +42,11 @@ Script1 == <<
         ForEach("", "b", Arr(<<LitI(1), LitI(2)>>), <<
            IfK(5, <<Ret(BinE("+", BinE("*", Ref("a"), LitI(10)), Ref("b")))>>)>>)>>),
      Ret(Ref("k"))>>),
+  \* literals which reach ++ / -- through a parameter and through a loop variable (they live in the constant pool)
+  Func("next", <<"p">>, <<<<"post", "++", "p">>, Ret(Ref("p"))>>),
   Bump("n"),
+  Asg("s1", CallE("next", <<<<"lit", F(1, 2)>>>>)), Asg("s2", CallE("next", <<LitI(100000)>>)),
+  ForEach("", "e", Arr(<<LitI(70001), <<"lit", F(3, 2)>>>>), <<<<"post", "--", "e">>, TE(Ref("e"))>>),
   Asg("lit", LitI(70000)), <<"post", "++", "lit">>,
   Asg("flt", <<"lit", F(5, 2)>>), <<"post", "--", "flt">>,
   IfM(6, <<ForEach("", "a", Arr(<<LitI(1), LitI(2), LitI(3)>>), <<
@@ -53,7 +57,7 @@ Script1 == <<
   IfM(9, <<Ret(Arr(<<Ref("n"), CallE("deep", <<LitI(5)>>)>>))>>),
   Asg("r", CallE("boom", <<M>>)),
   TE(Ref("r")),
-  Ret(Arr(<<Ref("n"), Ref("r"), Ref("lit"), Ref("flt"), Ref("a"), Ref("b"), Ref("k")>>))
+  Ret(Arr(<<Ref("n"), Ref("r"), Ref("lit"), Ref("flt"), Ref("a"), Ref("b"), Ref("k"), Ref("s1"), Ref("s2")>>))
 >>
 
 \* the same faults at top level, in and around loops, with a function that only counts
